@@ -213,3 +213,62 @@ def _main_case(ctx, cls, cmd):
         return {'what': 'error not reported cleanly', 'stderr': text[:200]}
     ctx.witness('reported')
     return None
+
+
+# ---------------------------------------------------------------------------------------------------------------
+# a section-3 length increased by 2k octets makes the decoder take k extra "descriptors" from the bytes that follow
+# (the head of section 4): the descriptor list becomes arbitrary.  Here those extra descriptors are solver-chosen from a
+# menu of every descriptor kind, the data bits are solver variables, compressed or not: whatever the decoder makes of the
+# garbled message, the only exception it may raise is the library's own error type.
+
+GARBLE_MENU = [1004, 12001, 10, 31001, 31031, 101000, 102000, 103002, 201130, 201000, 203010, 203255, 204002, 204000, 206008,
+               207001, 208002, 221002, 222000, 223000, 223255, 224255, 225255, 232255, 235000, 236000, 237000, 237255,
+               301001, 63255, 363255, 0]
+# operators 241-243 and delayed repetition (031011/031012) raise NotImplementedError by documented design: not in the menu
+FIRST_MENU = [101000, 102000, 204002, 206008, 203010, 222000, 1004]
+_SEEN_SITES = set()
+
+
+def _site(exc):
+    """innermost pybufrkit function the exception came from"""
+    import traceback
+    fn = '?'
+    for fr in traceback.extract_tb(exc.__traceback__):
+        if '/pybufrkit/' in fr.filename:
+            fn = '%s:%s' % (fr.filename.split('/')[-1], fr.name)
+    return fn
+
+
+def h_garbled(ctx):
+    from pybufrkit.errors import PyBufrKitError
+    from vlib import msgbuild
+    p = ctx.params
+    base = p.get('base', [])
+    k = p.get('n_extra', 1)
+    menu = p.get('menu', GARBLE_MENU)
+    # two extra descriptors: the first from the short menu of descriptors that set up a context for the second
+    extras = [(FIRST_MENU if (k == 2 and i == 0) else menu)[ctx.choice('extra%d' % i, len(FIRST_MENU if (k == 2 and i == 0) else menu))]
+              for i in range(k)]
+    compressed = bool(p.get('compressed'))
+    n_subsets = 2 if compressed else 1
+    ids = list(base) + extras
+    nbits = p.get('nbits', 64)
+    data = ctx.source('D', nbits)
+    parts, total = msgbuild.message_parts(ids, [('src', data, nbits)], nbits, n_subsets=n_subsets, compressed=compressed, edition=4)
+    stream = streams.flatten_parts(ctx, list(parts), string_alphabet=[0x20, 0x41, 0xff, 0x00], concretize_width_fields=p.get('max_diff_width', 1))
+    ctx.note('ids', ids)
+    try:
+        pbk.decoder().process(stream)
+    except PyBufrKitError:
+        ctx.witness('refused')
+        return None
+    except Exception as e:
+        key = (type(e).__name__, _site(e))
+        if key in _SEEN_SITES and ctx.mode == 'explore':
+            ctx.witness('non-library-error-again')
+            return None          # one report per (exception class, raising function) and job
+        _SEEN_SITES.add(key)
+        return {'what': 'a garbled message raises something that is not the library error', 'exc': key[0], 'site': key[1],
+                'message': str(e)[:120], 'ids': ids, 'compressed': compressed}
+    ctx.witness('decoded')
+    return None
